@@ -384,7 +384,7 @@ def _diff(a, b, path=""):
 def correspond(ctx):
     ca = core.impl_module()
     rnd = random.Random(ctx.seed)
-    n = 200 if ctx.tier == "quick" else 4000
+    n = 200 if ctx.tier == "quick" else 1200
     alphabet = ops.C16_OPS + ["copy", "import_uuid", "group", "ungroup_ports", "platform"]
     specs = [ops.gen_history(rnd, ca, alphabet, rnd.randint(1, 7)) for _ in range(n)]
     cases = ops.cases_for(ca, specs)
@@ -401,7 +401,7 @@ def correspond(ctx):
         if f and not matches_known(ctx, "K-ids", s, f):
             raise core.ImplViolation(dict(kind="input", kernel="K-ids", input=dict(s, k="history"), failure=f))
     # every exported class: copy / data / independence / identifiers
-    m = 20 if ctx.tier == "quick" else 600
+    m = 20 if ctx.tier == "quick" else 150
     count, seen = 0, set()
     for _ in range(m):
         plat, objs = factory(rnd, ca)
